@@ -43,6 +43,12 @@ theorem step_attLog_prefix (s : Inst) (op : Op) : ∃ new, (step s op).1.attLog 
   | sign c ip a d => exact ⟨[], by simp [step, (signGeneric_frame s c ip a d false).2.1]⟩
   | msign c ip items => exact ⟨[], by simp [step, (multisign_frame s c ip items []).2.1]⟩
   | restart => exact ⟨[], by simp [step]⟩
+  | importRec k r => exact ⟨[], by simp [step]⟩
+  | importCmd gvr f => exact ⟨[], by simp [(step_importCmd_frame s gvr f).2.1]⟩
+  | create c p pk => exact ⟨[], by simp [(step_create_frame s c p pk).2.1]⟩
+  | setUnlockable w n b => exact ⟨[], by simp [step]⟩
+  | lockWallet c w => exact ⟨[], by simp [step]⟩
+  | unlockWallet c w => exact ⟨[], by simp [step]⟩
 
 theorem signProp_propLog_prefix (s : Inst) (c : String) (a : Addr) (d : PropData) (f : Faults) (sf : Bool) :
     ∃ new, (signProp s c a d f sf).1.propLog = s.propLog ++ new := by
@@ -79,6 +85,12 @@ theorem step_propLog_prefix (s : Inst) (op : Op) : ∃ new, (step s op).1.propLo
   | sign c ip a d => exact ⟨[], by simp [step, (signGeneric_frame s c ip a d false).2.2]⟩
   | msign c ip items => exact ⟨[], by simp [step, (multisign_frame s c ip items []).2.2]⟩
   | restart => exact ⟨[], by simp [step]⟩
+  | importRec k r => exact ⟨[], by simp [step]⟩
+  | importCmd gvr f => exact ⟨[], by simp [(step_importCmd_frame s gvr f).2.2.1]⟩
+  | create c p pk => exact ⟨[], by simp [(step_create_frame s c p pk).2.2.1]⟩
+  | setUnlockable w n b => exact ⟨[], by simp [step]⟩
+  | lockWallet c w => exact ⟨[], by simp [step]⟩
+  | unlockWallet c w => exact ⟨[], by simp [step]⟩
 
 structure CrashInv (m : MState) : Prop where
   att : AttInv m.inst
@@ -88,10 +100,10 @@ structure CrashInv (m : MState) : Prop where
 
 theorem mstep_inv {m m' : MState} (h : CrashInv m) (st : MStep m m') : CrashInv m' := by
   cases st with
-  | request op =>
+  | request op hsafe =>
     obtain ⟨newA, hA⟩ := step_attLog_prefix m.inst op
     obtain ⟨newP, hP⟩ := step_propLog_prefix m.inst op
-    refine ⟨step_attInv _ _ h.att, step_propInv _ _ h.prop, ?_, ?_⟩
+    refine ⟨step_attInv_with_imports _ _ h.att hsafe, step_propInv_with_imports _ _ h.prop hsafe, ?_, ?_⟩
     · intro e he
       simp only at he ⊢
       rcases he with he | he
